@@ -14,6 +14,18 @@ TRUSTED_BASE = {
 }
 
 PROPS = {
+    "C12": {
+        "tests": ["TestC12"],
+        "design_ref": "DESIGN.md §3.12",
+        "level_text": "TODO",
+        "level_note": "TODO",
+    },
+    "C11": {
+        "tests": ["TestC11"],
+        "design_ref": "DESIGN.md §3.11",
+        "level_text": "TODO",
+        "level_note": "TODO",
+    },
     "C10": {
         "tests": ["TestC10"],
         "design_ref": "DESIGN.md §3.10",
